@@ -40,18 +40,18 @@ type Config struct {
 
 // Program is everything the engines work on.
 type Program struct {
-	Cfg      Config
-	Fset     *token.FileSet
-	Pkgs     []*packages.Package          // roots (module packages + controls)
-	ByPath   map[string]*packages.Package // every loaded package incl. deps
-	SSA      *ssa.Program
-	SSAPkgs  map[string]*ssa.Package
-	CG       *callgraph.Graph
-	AllFuncs map[*ssa.Function]bool
-	LoadSecs float64
+	Cfg           Config
+	Fset          *token.FileSet
+	Pkgs          []*packages.Package          // roots (module packages + controls)
+	ByPath        map[string]*packages.Package // every loaded package incl. deps
+	SSA           *ssa.Program
+	SSAPkgs       map[string]*ssa.Package
+	CG            *callgraph.Graph
+	AllFuncs      map[*ssa.Function]bool
+	LoadSecs      float64
 	NumTypeErrors int
-	downMemo map[*ssa.Function]downInfo
-	fnUses   map[*ssa.Function][]fnUse
+	downMemo      map[*ssa.Function]downInfo
+	fnUses        map[*ssa.Function][]fnUse
 }
 
 // IsLib reports whether the package path is in library scope L (DESIGN §2).
